@@ -178,6 +178,9 @@ func vfC03Alphabet(thorough bool) []vfOp {
 	// a nested target whose parent may be missing, a dataset or a group without that child,
 	// while the root group holds an object with the same leaf name
 	a = append(a, vfOp{Op: "hardlink", Path: "/hn", Target: "/b/a"})
+	// a sibling whose name has another name of the alphabet as a proper prefix ("/ab" vs "/a"):
+	// lookups that compare only the leading bytes confuse the two
+	a = append(a, vfOp{Op: "mkgroup", Path: "/ab"})
 	if thorough {
 		a = append(a, vfOp{Op: "hardlink", Path: "/a/a/up", Target: "/a"}, vfOp{Op: "mkgroup", Path: "/a/"})
 	}
